@@ -1349,6 +1349,7 @@ func c18_runC18(e *Env) {
 	c18Imports(e, setsIP)
 	c18Shadow(e, env)
 	c18Tables(e, env)
+	c18Decls(e, env)
 	// a violation inside the guard (nothing known explains it) is the most telling replay: list those first
 	sort.SliceStable(e.R.SpecViolations, func(i, j int) bool {
 		a, b := e.R.SpecViolations[i], e.R.SpecViolations[j]
